@@ -436,6 +436,10 @@ func (w *srvWorld) checkC07() {
 				if w.stopSeq >= 0 && w.stopSeq <= ob.Seq {
 					break
 				}
+				if w.baseCancelSeq >= 0 && w.baseCancelSeq <= ob.Seq {
+					r.Probe("handler-saw-base-context-end")
+					break
+				}
 				justified := false
 				for _, a := range w.acts {
 					// invoked before the observation and still executing when (or after) the request arrived
@@ -590,7 +594,7 @@ func (w *srvWorld) checkC07UnknownCancel(replies map[*member]replyRef) {
 					justified = true
 				}
 			}
-			if m.Script.CancelID == "waiting" || (w.stopSeq >= 0 && w.stopSeq <= end) {
+			if m.Script.CancelID == "waiting" || (w.stopSeq >= 0 && w.stopSeq <= end) || (w.baseCancelSeq >= 0 && w.baseCancelSeq <= end) {
 				justified = true
 			}
 			if !justified {
